@@ -23,7 +23,7 @@ claim('C13', 'model_checking',
       'Limits max_incomplete_connections=2, max_completed_connections=3, max_connections_per_user=2, max_names_per_connection=3, max_match_rules_per_connection=2, max_message_size=4096. '
       'Histories of 4 client slots of 2 users (raw connect with pipelined SASL, Hello, disconnect, auth timeout), name requests with and without queuing, rule add/remove and messages of size limit-8/limit/limit+8 are explored; '
       'the request that would exceed a limit must be refused with LimitsExceeded (or the connection not accepted) leaving the dump unchanged, requests below the limit must succeed, freed capacity must be reusable, '
-      'and every internal counter must equal the length of its list and be <= its limit in every state; rules may name another connection\'s unique name (the holder\'s counter, its own list and the matchmaker must agree whatever the bus does when that connection leaves); unanswered calls count against max_replies_per_connection with a finite reply_timeout configured; a reload of the same limits changes nothing.',
+      'and every internal counter must equal the length of its list and be <= its limit in every state; rules may name another connection\'s unique name (the holder\'s counter, its own list and the matchmaker must agree whatever the bus does when that connection leaves); unanswered calls count against max_replies_per_connection with a finite reply_timeout configured; a reload of the same limits changes nothing, a reload that raises the per-connection limits makes the new values decide; calls to a recipient that does not read are refused for its full queue without taking a reply slot.',
       'Trusts the counter model. max_replies_per_connection is covered in C09. Limits other than the listed values and histories beyond the depth bound are not covered.',
       'DESIGN.md section 4 C13')
 
